@@ -367,8 +367,106 @@ Proof.
   - apply (required_size_length_only (KScmpMsg ty)); [reflexivity|]. eapply mut_scmp_msg_length; eassumption.
 Qed.
 
-(** safe mutators keep byte strings byte strings *)
-Lemma run_mut_bytes_ok_info id val v v' : bytes_ok v = true -> mut_info id val v = Ok v' -> bytes_ok v' = true.
+(** * safe mutators keep byte strings byte strings *)
+Lemma wr_ok v r val v' : bytes_ok v = true -> wr v r val = Ok v' -> bytes_ok v' = true.
+Proof. intros Hok H. eapply wr_bytes_ok; eassumption. Qed.
+
+Lemma splice_ok v lo x : bytes_ok v = true -> bytes_ok x = true -> bytes_ok (splice v lo x) = true.
 Proof.
-  unfold mut_info. intros Hok H. split_id H; try solve [eapply wr_bytes_ok; eassumption]; inversion H; subst; exact Hok.
+  intros Hv Hx. unfold splice. rewrite !bytes_ok_app, Hx, bytes_ok_firstn, bytes_ok_skipn by exact Hv. reflexivity.
+Qed.
+
+Lemma in_sub_ok v p f v' : bytes_ok v = true ->
+  (forall x y, bytes_ok x = true -> f x = Ok y -> bytes_ok y = true) -> in_sub v p f = Ok v' -> bytes_ok v' = true.
+Proof.
+  intros Hok Hf H. unfold in_sub in H. inv_bind H. inversion H; subst; clear H.
+  apply get_unchecked_some in E. destruct E as (-> & _ & _).
+  apply splice_ok; [exact Hok|]. eapply Hf; [|exact E0]. unfold sub. apply bytes_ok_firstn, bytes_ok_skipn, Hok.
+Qed.
+
+Lemma poke_ok v p arg val v' : bytes_ok v = true -> poke v p arg val = Ok v' -> bytes_ok v' = true.
+Proof.
+  intros Hok H. unfold poke in H. destruct (fst p + arg <? snd p); inversion H; subst; [|exact Hok].
+  apply splice_ok; [exact Hok|]. cbn [bytes_ok forallb]. unfold byte_ok, trunc. change (2 ^ 8) with 256.
+  rewrite Bool.andb_true_r. apply N.ltb_lt. apply N.mod_lt. discriminate.
+Qed.
+
+Lemma mut_info_ok id val v v' : bytes_ok v = true -> mut_info id val v = Ok v' -> bytes_ok v' = true.
+Proof.
+  unfold mut_info. intros Hok H. split_id H; try solve [eapply wr_ok; eassumption]; inversion H; subst; exact Hok.
+Qed.
+Lemma mut_hop_ok id val v v' : bytes_ok v = true -> mut_hop id val v = Ok v' -> bytes_ok v' = true.
+Proof.
+  unfold mut_hop. intros Hok H. split_id H; try solve [eapply wr_ok; eassumption]; try solve [inversion H; subst; exact Hok].
+  inv_bind H. inversion H; subst. apply splice_ok; [exact Hok|]. exact (bytes_ok_be_bytes 6 val).
+Qed.
+Lemma mut_stdpath_ok id arg val v v' : bytes_ok v = true -> mut_stdpath id arg val v = Ok v' -> bytes_ok v' = true.
+Proof.
+  unfold mut_stdpath. intros Hok H. split_id H; try solve [eapply wr_ok; eassumption].
+  all: repeat match type of H with (if ?c then _ else _) = _ => destruct c end; try solve [inversion H; subst; exact Hok].
+  all: inv_bind H; try solve [inversion H; subst; exact Hok].
+  all: (eapply in_sub_ok; [exact Hok| |exact H]); intros x y Hx Hxy; first [eapply mut_info_ok; eassumption|eapply mut_hop_ok; eassumption].
+Qed.
+Lemma mut_onehop_ok id val v v' : bytes_ok v = true -> mut_onehop id val v = Ok v' -> bytes_ok v' = true.
+Proof.
+  unfold mut_onehop. intros Hok H.
+  repeat match type of H with (if ?c then _ else _) = _ => destruct c end; try solve [inversion H; subst; exact Hok].
+  all: inv_bind H; (eapply in_sub_ok; [exact Hok| |exact H]); intros x y Hx Hxy; first [eapply mut_info_ok; eassumption|eapply mut_hop_ok; eassumption].
+Qed.
+Lemma mut_udp_ok id arg val v v' : bytes_ok v = true -> mut_udp id arg val v = Ok v' -> bytes_ok v' = true.
+Proof.
+  unfold mut_udp. intros Hok H. split_id H; try solve [eapply wr_ok; eassumption]; try solve [inversion H; subst; exact Hok].
+  inv_bind H. eapply poke_ok; eassumption.
+Qed.
+Lemma mut_scmp_msg_ok ty id arg val v v' : bytes_ok v = true -> mut_scmp_msg ty id arg val v = Ok v' -> bytes_ok v' = true.
+Proof.
+  unfold mut_scmp_msg. intros Hok H. split_id H; try solve [eapply wr_ok; eassumption]; try solve [inversion H; subst; exact Hok].
+  all: try solve [destruct (scmp_fixed_size ty); [inversion H; subst; exact Hok|]; inv_bind H; eapply poke_ok; eassumption].
+  all: match type of H with match ?o with _ => _ end = _ => destruct o as [[r bits]|] end;
+       [eapply wr_ok; eassumption|inversion H; subst; exact Hok].
+Qed.
+Lemma mut_scmp_ok id arg val v v' : bytes_ok v = true -> mut_scmp id arg val v = Ok v' -> bytes_ok v' = true.
+Proof.
+  unfold mut_scmp. intros Hok H. split_id H; try solve [eapply wr_ok; eassumption]; try solve [inversion H; subst; exact Hok].
+  all: repeat match type of H with (if ?c then _ else _) = _ => destruct c end; try solve [inversion H; subst; exact Hok].
+  all: inv_bind H; eapply mut_scmp_msg_ok; eassumption.
+Qed.
+Lemma mut_header_scalar_ok id arg val v v' : bytes_ok v = true -> 1 <= id <= 7 -> mut_header id arg val v = Ok v' -> bytes_ok v' = true.
+Proof.
+  intros Hok Hid H. unfold mut_header in H.
+  assert (C : id = 1 \/ id = 2 \/ id = 3 \/ id = 4 \/ id = 5 \/ id = 6 \/ id = 7) by lia.
+  destruct C as [->|[->|[->|[->|[->|[->| ->]]]]]]; cbn iota in H; eapply wr_ok; eassumption.
+Qed.
+
+Lemma run_mut_ok k id arg val v v' :
+  layout_preserving_op k id = true -> bytes_ok v = true -> run_mut k id arg val v = Ok v' -> bytes_ok v' = true.
+Proof.
+  intros Hop Hok H.
+  destruct k; cbn [layout_preserving_op] in Hop; try discriminate Hop; cbn [run_mut] in H.
+  - apply Bool.andb_true_iff in Hop. destruct Hop as [H1 H7]. apply N.leb_le in H1. apply N.leb_le in H7.
+    eapply mut_header_scalar_ok; [exact Hok|split; eassumption|exact H].
+  - eapply mut_stdpath_ok; eassumption.
+  - eapply mut_onehop_ok; eassumption.
+  - eapply mut_info_ok; eassumption.
+  - eapply mut_hop_ok; eassumption.
+  - eapply mut_udp_ok; eassumption.
+  - eapply mut_scmp_ok; eassumption.
+  - eapply mut_scmp_msg_ok; eassumption.
+Qed.
+
+(** sequences: after ANY sequence of covered safe mutators the view re-validates with the same size *)
+Lemma run_muts_preserve k ms : forall v v',
+  forallb (fun m => layout_preserving_op k (fst (fst m))) ms = true ->
+  bytes_ok v = true -> required_size k v = Ok (blen v) -> run_muts k ms v = Ok v' ->
+  required_size k v' = Ok (blen v') /\ blen v' = blen v /\ bytes_ok v' = true.
+Proof.
+  induction ms as [|[[id arg] val] r IH]; intros v v' Hall Hok Hv H; cbn [run_muts] in H.
+  - inversion H; subst. auto.
+  - cbn [forallb fst] in Hall. apply Bool.andb_true_iff in Hall. destruct Hall as [Hop Hall].
+    inv_bind H.
+    pose proof (run_mut_preserves_required_size k id arg val v a Hop Hok Hv E) as P.
+    pose proof (run_mut_length k id arg val v a E) as L. apply blen_length in L.
+    pose proof (run_mut_ok k id arg val v a Hop Hok E) as O.
+    assert (Hva : required_size k a = Ok (blen a)) by (rewrite P, L; exact Hv).
+    destruct (IH a v' Hall O Hva H) as (R1 & R2 & R3). refine (conj R1 (conj _ R3)). lia.
 Qed.
